@@ -187,6 +187,40 @@ impl Monitor for C11 {
                 rep.nontrivial_key(&w);
             }
         }
+        // ---- the trait's DEFAULT steps_iter (brute_force_steps_iter): ApproximatedPoisson is the only model
+        //      of the crate that relies on it; low rates give models with number_arrivals(1) = 0
+        if _index % 8 == 0 {
+            use response_time_analysis::arrival::ApproximatedPoisson;
+            let rate = 10f64.powf(-4.0 + 3.5 * rng.f64());
+            let eps = *rng.pick(&[0.2f64, 0.05, 0.01, 0.001]);
+            let jit = rng.range(0, 40);
+            let hp = 300u64;
+            let r = guard(|| {
+                let ap = ApproximatedPoisson::new(rate, eps);
+                let f = table(&ap, hp);
+                let (items, ex) = pull(&mut *ap.steps_iter(), hp, hp as usize + 10);
+                let j = ap.clone_with_jitter(Duration::from(jit));
+                let fj = table(&*j, hp);
+                let (items_j, exj) = pull(&mut *j.steps_iter(), hp, hp as usize + 10);
+                (f, items, ex, fj, items_j, exj)
+            });
+            match r {
+                Err(c) => rep.violation(format!("C11 impl=ApproximatedPoisson(default steps_iter) kind={} class={}", c.kind, c.class()), jobj! {"rate"=>rate,"epsilon"=>eps,"caught"=>c.to_json()}),
+                Ok((f, items, ex, fj, items_j, exj)) => {
+                    rep.count("default_steps_iter_models_checked", 1);
+                    rep.count("steps_compared", (items.len() + items_j.len()) as u64);
+                    if f[1] == 0 {
+                        rep.count("default_steps_iter_models_without_step_at_one", 1);
+                    }
+                    if let Some((kind, d)) = compare_steps(&f, &items, ex) {
+                        rep.violation(format!("C11 impl=ApproximatedPoisson(default steps_iter) kind={}", kind), jobj! {"rate"=>rate,"epsilon"=>eps,"discrepancy"=>d,"first_items"=>&items[..items.len().min(8)]});
+                    } else if let Some((kind, d)) = compare_steps(&fj, &items_j, exj) {
+                        rep.violation(format!("C11 impl=Propagated<ApproximatedPoisson> kind={}", kind), jobj! {"rate"=>rate,"epsilon"=>eps,"jitter"=>jit,"discrepancy"=>d,"first_items"=>&items_j[..items_j.len().min(8)]});
+                    }
+                }
+            }
+        }
+
         // ---- request bound
         let dem = gen_dem(&mut rng, &g, 2);
         let hd = dem.arrs().iter().map(|a| horizon_of(a)).max().unwrap_or(10);
